@@ -795,6 +795,10 @@ func (p *prover) lenGeneric(x ssa.Value) linExpr {
 func (p *prover) lenFacts(key string, x ssa.Value) {
 	e := p.atomLin(key)
 	switch t := x.(type) {
+	case *ssa.UnOp:
+		if t.Op == token.MUL {
+			p.condUpdateFact(e, t)
+		}
 	case *ssa.Call:
 		n := calleeName(&t.Call)
 		switch n {
@@ -1769,4 +1773,96 @@ func tableFieldRange(v ssa.Value) (lo, hi int64, ok bool) {
 	}
 	tableFieldMemo[key] = [2]int64{lo, hi}
 	return lo, hi, true
+}
+
+// condUpdateFact: the "grow if too small" idiom on a slice kept in memory —
+//
+//	if len(x.buf) < n { x.buf = make([]T, n) }
+//	… x.buf[:n]
+//
+// leaves len(x.buf) >= n at the join whichever way the branch went: on one edge the guard says so, on the other the
+// slice was just made with that length.  No single guard dominates the use and the slice lives in a field (no φ), so
+// the fact is derived here: load is a load of the field after such a diamond with no write to it in between.
+func (p *prover) condUpdateFact(e linExpr, load *ssa.UnOp) {
+	key := addrKey(p.canon0(load.X), 0)
+	if key == "" || load.Block() == nil {
+		return
+	}
+	fn := p.fn
+	lenOfKey := func(v ssa.Value) *ssa.UnOp {
+		c, ok := v.(*ssa.Call)
+		if !ok || calleeName(&c.Call) != "builtin.len" || len(c.Call.Args) != 1 {
+			return nil
+		}
+		l0, ok := c.Call.Args[0].(*ssa.UnOp)
+		if !ok || l0.Op != token.MUL || addrKey(p.canon0(l0.X), 0) != key {
+			return nil
+		}
+		return l0
+	}
+	for _, b := range fn.Blocks {
+		if len(b.Instrs) == 0 || len(b.Succs) != 2 {
+			continue
+		}
+		iff, ok := b.Instrs[len(b.Instrs)-1].(*ssa.If)
+		if !ok {
+			continue
+		}
+		bo, ok := iff.Cond.(*ssa.BinOp)
+		if !ok {
+			continue
+		}
+		var l0 *ssa.UnOp
+		var n ssa.Value
+		switch bo.Op {
+		case token.LSS: // len(buf) < n
+			l0, n = lenOfKey(bo.X), bo.Y
+		case token.GTR: // n > len(buf)
+			l0, n = lenOfKey(bo.Y), bo.X
+		}
+		if l0 == nil {
+			continue
+		}
+		upd, join := b.Succs[0], b.Succs[1]
+		if len(upd.Succs) != 1 || upd.Succs[0] != join || len(upd.Preds) != 1 {
+			continue
+		}
+		if !join.Dominates(load.Block()) && join != load.Block() {
+			continue
+		}
+		stored := false
+		for _, in := range upd.Instrs {
+			st, ok := in.(*ssa.Store)
+			if !ok {
+				if mayWrite(in) {
+					if _, isCall := in.(*ssa.Call); isCall {
+						stored = false
+						break
+					}
+				}
+				continue
+			}
+			if addrKey(p.canon0(st.Addr), 0) != key {
+				continue
+			}
+			mk, ok := st.Val.(*ssa.MakeSlice)
+			if !ok || mk.Len != n {
+				stored = false
+				break
+			}
+			stored = true
+		}
+		if !stored {
+			continue
+		}
+		first := firstInstr(join)
+		if first == nil || (first != ssa.Instruction(load) && !p.cleanBetween(first, load, key)) {
+			continue
+		}
+		if !p.cleanBetween(l0, iff, key) {
+			continue
+		}
+		p.ge(e, p.lin(n))
+		return
+	}
 }
